@@ -27,7 +27,10 @@ broadcast use {axiom_path_as_path};
 pub const MAX_FILE_CACHE_SIZE: usize = 2000;
 
 #[verifier::external_type_specification] pub struct ExUndeclaredFixture(UndeclaredFixture);
-//@dbstruct_arc definitions file_definitions usages usage_by_fixture undeclared_fixtures imports file_cache available_fixtures_cache cycle_cache definitions_version canonical_path_cache line_index_cache imported_fixtures_cache ast_cache
+//@item src/fixtures/mod.rs struct EditableInstall
+// v2: ALL 18 fields of the database (added: site_packages_paths editable_install_roots workspace_root
+// plugin_fixture_files), so that the frame of evict_cache_if_needed below is proved for every field it does not write
+//@dbstruct_arc definitions file_definitions usages usage_by_fixture undeclared_fixtures imports file_cache available_fixtures_cache cycle_cache definitions_version canonical_path_cache line_index_cache imported_fixtures_cache ast_cache site_packages_paths editable_install_roots workspace_root plugin_fixture_files
 
 /// everything the memoised computations may read: definitions and cached texts (the file system is a constant)
 pub struct QView { pub defs: Map<Seq<char>, Seq<DefV>>, pub texts: Map<PV, Seq<char>> }
@@ -136,6 +139,25 @@ impl FixtureDatabase {
         final(self).file_cache.m() == old(self).file_cache.m().remove(canon(pv(file_path))),
         final(self).available_fixtures_cache.m() == old(self).available_fixtures_cache.m().remove(canon(pv(file_path))),
         final(self).cycle_cache == old(self).cycle_cache,
+        // v2: the other per-file memo entries of the canonical path go too ...
+        final(self).line_index_cache.m() == old(self).line_index_cache.m().remove(canon(pv(file_path))),
+        final(self).imported_fixtures_cache.m() == old(self).imported_fixtures_cache.m().remove(canon(pv(file_path))),
+        // ... and the canonical-path table and the environment fields are not touched
+        final(self).canonical_path_cache == old(self).canonical_path_cache,
+        final(self).site_packages_paths == old(self).site_packages_paths,
+        final(self).editable_install_roots == old(self).editable_install_roots,
+        final(self).workspace_root == old(self).workspace_root,
+        final(self).plugin_fixture_files == old(self).plugin_fixture_files,
+@*/
+
+// exec vacuity guard (must FAIL): the real body of cleanup_file_cache under "the line-index table is left alone"
+/*@ extract src/fixtures/mod.rs cleanup_file_cache
+@tags C07
+@as canary_cleanup_keeps_line_index_entry
+@recv mut
+@wrapexpr 1 `file_path .canonicalize() .unwrap_or_else(|_| file_path.to_path_buf())` => `Self::vp_canonicalize_or_self_c(file_path)` with fn vp_canonicalize_or_self_c(file_path: &Path) -> (r: PathBuf) ensures pbv(&r) == canon(pv(file_path))
+@sig
+    ensures final(self).line_index_cache.m() == old(self).line_index_cache.m(),
 @*/
 
 /*@ extract src/fixtures/mod.rs evict_cache_if_needed
@@ -153,6 +175,16 @@ impl FixtureDatabase {
         final(self).cycle_cache == old(self).cycle_cache,
         final(self).file_cache.m().submap_of(old(self).file_cache.m()),
         final(self).available_fixtures_cache.m().submap_of(old(self).available_fixtures_cache.m()),
+        // v2: the other memo tables only shrink too (so invariants of the form "every entry is ..." survive: unit
+        // memo_keys li_cache_wf / ast_cache_wf) ...
+        final(self).line_index_cache.m().submap_of(old(self).line_index_cache.m()),
+        final(self).imported_fixtures_cache.m().submap_of(old(self).imported_fixtures_cache.m()),
+        // ... and the canonical-path table and the environment fields are not touched
+        final(self).canonical_path_cache == old(self).canonical_path_cache,
+        final(self).site_packages_paths == old(self).site_packages_paths,
+        final(self).editable_install_roots == old(self).editable_install_roots,
+        final(self).workspace_root == old(self).workspace_root,
+        final(self).plugin_fixture_files == old(self).plugin_fixture_files,
 @loopvar 1 it
 @loop 1
     invariant
@@ -161,6 +193,11 @@ impl FixtureDatabase {
         self.definitions == old(self).definitions, self.version() == old(self).version(), self.cycle_cache == old(self).cycle_cache,
         self.file_cache.m().submap_of(old(self).file_cache.m()),
         self.available_fixtures_cache.m().submap_of(old(self).available_fixtures_cache.m()),
+        self.line_index_cache.m().submap_of(old(self).line_index_cache.m()),
+        self.imported_fixtures_cache.m().submap_of(old(self).imported_fixtures_cache.m()),
+        self.canonical_path_cache == old(self).canonical_path_cache,
+        self.site_packages_paths == old(self).site_packages_paths, self.editable_install_roots == old(self).editable_install_roots,
+        self.workspace_root == old(self).workspace_root, self.plugin_fixture_files == old(self).plugin_fixture_files,
 @*/
 }
 } // mod resolver
